@@ -200,3 +200,26 @@ def run(ctx):
             "the evaluator's output is recognised in nanoc --verbose stdout by the sentinel lines '<<S f' / '>>E f'",
             "reference model nlv/gen/ref.py gives the third opinion",
         ])
+
+
+def replay(ctx, path):
+    """re-run the stored program: evaluator segments vs binary segments"""
+    plain = build.get("plain")
+    files = sweep.replay_files(path)
+    with Scratch("c03r") as sc:
+        o = engines.observe(plain, sc.sub("p"), files, vm=False, verbose=True)
+        if not o.built:
+            print("replay %s: nanoc did not produce a binary (%s)" % (path, engines.classify_nanoc_failure(o.nanoc)))
+            print("VIOLATION property=C03 replay=%s" % path)
+            return 1
+        si, sn = segments(o.nanoc.text()), segments(o.native.text())
+        if not si:
+            import re as _re
+            mi = _re.search(r"<<S\n(.*?)>>E\n", o.nanoc.text(), _re.S)
+            mn = _re.search(r"<<S\n(.*?)>>E\n", o.native.text(), _re.S)
+            si, sn = {"t": mi.group(1) if mi else None}, {"t": mn.group(1) if mn else None}
+        bad = [f for f in si if si[f] != strip_asserts(sn.get(f) or "")[0]]
+        print("replay %s: %d block(s), differing: %s" % (path, len(si), bad))
+        if bad:
+            print("VIOLATION property=C03 replay=%s" % path)
+        return 1 if bad else 0
